@@ -239,11 +239,22 @@ pub fn replay_entry(e: &Value) -> Result<String, String> {
                 let n2 = count(&kb);
                 for i in 0..3 { suiron::add_rules(&mut kb, vec![suiron::make_fact(suiron::Unifiable::SComplex(vec![suiron::Unifiable::Atom("zz_added_0".into()), suiron::Unifiable::SInteger(100 + i)]))]); }
                 let n3 = count(&kb);
+                // a clause that can never succeed is added to the queried predicate itself (its clause vector changes while
+                // the number of predicates stays the same), the predicate is removed and put back, the whole knowledge
+                // base is replaced by a new one in the same variable - each followed by the same query
+                let qhead = suiron::Unifiable::SComplex(std::iter::once(suiron::Unifiable::Atom(p.qname.clone())).chain((0..p.qargs.len()).map(|i| suiron::Unifiable::LogicVar { id: 0, name: format!("$Zz{}", i) })).collect());
+                let key = qhead.key();
+                suiron::add_rules(&mut kb, vec![suiron::make_rule(qhead, suiron::Goal::BuiltInGoal(suiron::BuiltInPredicate::new("fail".to_string(), None)))]);
+                let n4 = count(&kb);
+                if let Some(rules) = kb.remove(&key) { let n5a = count(&kb); let _ = n5a; suiron::add_rules(&mut kb, rules); }
+                let n5 = count(&kb);
+                kb = crate::bridge::build_kb(&p.clauses);
+                let n6 = count(&kb);
                 let _ = suiron::format_kb(&kb);
-                (n1, n2, n3)
+                (n1, n2, n3, n4, n5, n6)
             }).map_err(|f| format!("{:?}", f))?;
-            if r != (expected, expected, expected) { return Err(format!("answers before / after adding unrelated rules: {:?}, expected {}", r, expected)); }
-            did.push_str("; query, 14 new predicates added, query, 3 more facts, query");
+            if r != (expected, expected, expected, expected, expected, expected) { return Err(format!("answers before / after changing the knowledge base: {:?}, expected {}", r, expected)); }
+            did.push_str("; query, 14 new predicates added, query, 3 more facts, query, a failing clause added to the queried predicate, query, predicate removed and put back, query, knowledge base replaced, query");
         }
         "timer" => {
             // the timer thread fires while a search is running and reading the stop flag
